@@ -92,6 +92,12 @@ add("C17", "vp_sig",
     "Trusted: libm sin/cos for the references; the phase observer is a second instance of the same Phase code (the model checks it against exact accumulation).",
     "DESIGN.md §4 C17")
 
+add("C11", "vp_sig (std) + vp_nostd (dasp_sample/frame/ring_buffer/rms with default-features = false)",
+    "proptest operation histories + long runs against an exact windowed mean-square reference, in two feature configurations",
+    "Histories of push / push-squared / reset (up to 50 x N, max 3000 operations; long runs of 1e5, thorough 1e6 pushes with loud/quiet alternation) over 7 formats x 1/2/5 channels x window lengths 1..=64, 100, 1000. Exact regime (grid values k/64, libm sqrt): next_squared == mean and next == sqrt(mean) bit for bit; general regime: |next_squared - mean| within the derived bound u X^2 (2.2 T (N+1)/N + 5), next within the bound propagated through the square root (4u relative for libm; 7% + 2^-62 / 2^-500 for the no_std approximation); never negative or NaN; after reset() bit-identical to a fresh detector on the same subsequent input; current() == last next(); the signal adaptor bit-identical to the direct detector. The driver runs a std binary and a binary whose dasp crates are built without the std feature (a start-up self-check confirms which square root is linked) and merges their evidence.",
+    "Trusted: f64 reference arithmetic on exact amplitudes (its own error is added to the bound). The general-regime bound grows with the number of pushes since the last reset; the exact regime compensates.",
+    "DESIGN.md §4 C11")
+
 PENDING_REASON = "check not yet built in this round (design in DESIGN.md §4); nothing is claimed for it until its check is registered"
 
 def main():
